@@ -27,6 +27,8 @@ import (
 
 var recWait = stats.New("waiters", "stateful rapid sequences on one real KVNode behind a schedule-owning fake raft: submit (GETSET / INCR / INCRBY / SETNX / LPUSH / DEL / HSET on 5 keys, asynchronously, up to 12 in flight), cancel a queued proposal through the cancel function raft holds (the request must fail at once with the proposal-cancelled error), drop a cancelled entry for good or let it commit later, commit the next 1-6 queued entries as one apply batch. Oracle: every request that was not cancelled is answered with exactly the reference model's reply for its command at its place in the commit order, and only once its own entry has been applied (an apply-path panic such as 'done chan is full' fails the case); after the last step no request id is left in the pending table and the data equals the model over the committed entries (cancelled-but-committed ones included). non-trivial = a cancelled entry was committed while a later request was in flight")
 
+var oversize = strings.Repeat("x", common.MaxValueSize+1)
+
 type wreq struct {
 	id        uint64
 	args      []string
@@ -65,7 +67,7 @@ func TestPendingTable(t *testing.T) {
 				got = want // the apply-level value of SET / HMSET is not the client reply; only success vs error is compared
 			}
 			if !resp.Equal(got, want) {
-				fail("request #%d %q was answered %s; the reference model, at its place in the commit order, says %s", r.id, strings.Join(r.args, " "), got, want)
+				fail("request #%d %q was answered %s; the reference model, at its place in the commit order, says %s", r.id, short(r.args), got, want)
 			}
 		}
 		// applyModel is the reference for ONE call of applyEntries (node/state_machine.go): SET, SETEX,
@@ -89,16 +91,20 @@ func TestPendingTable(t *testing.T) {
 				r.applied = true
 				name, pk := r.args[0], r.args[1]
 				batchable := (name == "set" || name == "setex" || name == "hmset" || (name == "del" && len(r.args) == 2)) && !dup[pk]
+				refused := pk == "keywithouttable" || (name == "hmset" && len(r.args) == 6 && len(r.args[5]) > 1024)
 				if !batchable {
 					commit()
-					want := m.Apply(0, 1700000000, r.args)
+					want := resp.Err("refused when applied")
+					if !refused {
+						want = m.Apply(0, 1700000000, r.args)
+					}
 					if !r.cancelled {
 						collect(r, want)
 					}
 					continue
 				}
 				dup[pk] = true
-				if pk == "keywithouttable" {
+				if refused {
 					labels["batchable_write_refused_at_apply"] = true
 					if len(open) > 0 {
 						labels["open_batch_aborted_with_earlier_writes"] = true
@@ -125,7 +131,7 @@ func TestPendingTable(t *testing.T) {
 				seq++
 				key := "t:k" + fmt.Sprint(rapid.IntRange(0, 1).Draw(t, "key"))
 				var args []string
-				switch rapid.IntRange(0, 12).Draw(t, "cmd") {
+				switch rapid.IntRange(0, 13).Draw(t, "cmd") {
 				case 6, 7:
 					// single-key DEL, SET and HMSET join the engine write batch of an apply call (kvbatchOperator)
 					args = []string{"del", key}
@@ -135,6 +141,14 @@ func TestPendingTable(t *testing.T) {
 					args = []string{"set", key, fmt.Sprintf("w%d", seq)}
 				case 11:
 					args = []string{"hmset", "t:hm" + fmt.Sprint(seq%2), fmt.Sprintf("f%d", seq%3), fmt.Sprintf("m%d", seq)}
+				case 13:
+					if rapid.IntRange(0, 5).Draw(t, "oversize") > 0 {
+						args = []string{"getset", key, fmt.Sprintf("v%d", seq)}
+						break
+					}
+					// the second value is over the size limit: the command fails while it is applied, after
+					// its first pair went into the shared write batch
+					args = []string{"hmset", "t:hm" + fmt.Sprint(seq%2), "big1", "ok", "big2", oversize}
 				case 12:
 					// passes the leader's validation, is refused when applied (no table in the key):
 					// the open engine write batch is aborted with everything batched before it
@@ -170,7 +184,7 @@ func TestPendingTable(t *testing.T) {
 				r := &wreq{id: rl.Reqs[0].Header.ID, args: args, fut: fut}
 				reqs = append(reqs, r)
 				queue = append(queue, r)
-				trace = append(trace, fmt.Sprintf("submit #%d %s", r.id, strings.Join(args, " ")))
+				trace = append(trace, fmt.Sprintf("submit #%d %s", r.id, short(args)))
 			case act <= 6: // raft cancels a queued proposal
 				var cand []int
 				for i, r := range queue {
@@ -241,7 +255,7 @@ func TestPendingTable(t *testing.T) {
 		}
 		for _, r := range reqs {
 			if part.KV.VerifWaitRegistered(r.id) {
-				fail("request #%d (%s; cancelled=%v committed=%v) is finished but its id is still in the pending request table", r.id, strings.Join(r.args, " "), r.cancelled, r.applied)
+				fail("request #%d (%s; cancelled=%v committed=%v) is finished but its id is still in the pending request table", r.id, short(r.args), r.cancelled, r.applied)
 			}
 		}
 		for _, rc := range [][]string{{"get", "t:k0"}, {"get", "t:k1"}, {"get", "t:n"}, {"lrange", "t:l", "0", "-1"}, {"hgetall", "t:h"}, {"hgetall", "t:hm0"}, {"hgetall", "t:hm1"}} {
@@ -264,4 +278,15 @@ func TestPendingTable(t *testing.T) {
 			return map[string]interface{}{"steps": tr}
 		})
 	})
+}
+
+func short(args []string) string {
+	var out []string
+	for _, a := range args {
+		if len(a) > 64 {
+			a = fmt.Sprintf("%s...(%d bytes)", a[:8], len(a))
+		}
+		out = append(out, a)
+	}
+	return strings.Join(out, " ")
 }
